@@ -427,10 +427,23 @@ pub fn main(args: &[String]) {
             ];
             let val = |g: &str| if g == "int" { "3" } else { "true" };
             let mut all = vec![];
+            // result types of NESTED groups that mention a member defined by an outer definition
+            for (outer, names) in [("s = int; t = bool", ["s", "t"]), ("t = bool; s = int", ["s", "t"]), ("s = int; t = bool; u = int", ["t", "u"])] {
+                for x in names {
+                    let lit = if x == "t" { "true" } else { "3" };
+                    let other = if x == "t" { "s" } else { "t" };
+                    all.push(format!("{outer}; r = (a = {x}; v : a = {lit}; v); r"));
+                    all.push(format!("{outer}; (a = {x}; v : a = {lit}; v)"));
+                    all.push(format!("{outer}; r = (a = {x}; b = {other}; v : a = {lit}; v); r"));
+                    all.push(format!("{outer}; r = (b = {other}; a = {x}; v : a = {lit}; v); w : {x} = r; w"));
+                    all.push(format!("{outer}; r = (b = {other}; a = {x}; v : a = {lit}; v); w : {other} = r; w"));
+                }
+            }
             for (a, ga) in types {
-                for (b, _) in types {
+                for (b, gb) in types {
+                    let use_x = if gb == "int" { "x + 1" } else { "if x then 1 else 2" };
                     all.push(format!("y : {a} = {}; z : {b} = y; z", val(ga)));
-                    all.push(format!("g : ({a} -> int) = (x : {b}) => 1; g {}", val(ga)));
+                    all.push(format!("g : ({a} -> int) = (x : {b}) => {use_x}; g {}", val(ga)));
                     all.push(format!("g = (x : {a}) => x; w : {b} = g {}; w", val(ga)));
                     all.push(format!("s : type = {a}; y : s = {}; z : {b} = y; z", val(ga)));
                 }
